@@ -50,3 +50,7 @@ int strcasecmp(const char *a, const char *b) { while (*a && tolower((unsigned ch
 int strncasecmp(const char *a, const char *b, size_t n) { while (n && *a && tolower((unsigned char) *a) == tolower((unsigned char) *b)) a++, b++, n--; return n ? tolower((unsigned char) *a) - tolower((unsigned char) *b) : 0; }
 void *memccpy(void *d, const void *s, int c, size_t n) { unsigned char *p = d; const unsigned char *q = s; while (n--) { *p++ = *q; if (*q++ == (unsigned char) c) return p; } return 0; }
 int bcmp(const void *a, const void *b, size_t n) { return memcmp(a, b, n); }
+
+/* errno of the interpreted program */
+static int model_errno;
+int *__errno_location(void) { return &model_errno; }
